@@ -6,6 +6,19 @@ Import ListNotations.
 Open Scope N_scope.
 
 Definition B (s : string) : str := map N_of_ascii (list_ascii_of_string s).
+(* texts of the cases files: one string literal per text; bytes outside printable ASCII, the backslash and
+   the double quote are written as a backslash followed by two hex digits *)
+Definition hexval (c : N) : N := if c <? 58 then c - 48 else c - 87.
+Fixpoint unesc (l : list N) : list N :=
+  match l with
+  | [] => []
+  | c :: r =>
+      match r with
+      | a :: b :: r' => if c =? 92 then (16 * hexval a + hexval b) :: unesc r' else c :: unesc r
+      | _ => c :: unesc r
+      end
+  end.
+Definition D (s : string) : str := unesc (B s).
 
 (* ------------------------------------------------------------------ equality on observed trees *)
 Fixpoint list_eqb {A} (e : A -> A -> bool) (a b : list A) : bool :=
